@@ -91,9 +91,16 @@ void DataArray::appendData(DataType dtype, const void *data, const NDSize &count
     extent[axis] += count[axis];
 
     //enlarge the DataArray to fit the new data
+    const NDSize old_extent = dataExtent();
     dataExtent(extent);
 
-    setData(dtype, data, count, offset);
+    try {
+        setData(dtype, data, count, offset);
+    } catch (...) {
+        // the write was rejected: undo the resize
+        dataExtent(old_extent);
+        throw;
+    }
 
 }
 
